@@ -1,5 +1,6 @@
 """Run every seeded defect under seeded/ through its property's quick check (scratch worktree each) and write
-seeded/RESULTS.json + seeded/RESULTS.md.  Usage: python -m harness.seedall [jobs]"""
+seeded/RESULTS.json + seeded/RESULTS.md.  Usage: python -m harness.seedall [jobs]
+(SEEDALL_ONLY=<regex> re-runs only the matching seeds and keeps the recorded verdicts of the others)"""
 import concurrent.futures as cf
 import json
 import os
@@ -40,10 +41,18 @@ def main():
     names = sorted((n for n in os.listdir(os.path.join(V, "seeded")) if os.path.isdir(os.path.join(V, "seeded", n))),
                    key=lambda s: [int(x) if x.isdigit() else x for x in re.split(r"(\d+)", s)])
     res = {}
+    only = os.environ.get("SEEDALL_ONLY")          # regex: re-run only these seeds, keep the recorded verdict of the others
+    if only:
+        old = json.load(open(os.path.join(V, "seeded", "RESULTS.json")))
+        res = {n: old[n] for n in names if n in old and not re.search(only, n)}
+        todo = [n for n in names if n not in res]
+    else:
+        todo = names
     with cf.ThreadPoolExecutor(jobs) as ex:
-        for name, r in ex.map(one, names):
+        for name, r in ex.map(one, todo):
             res[name] = r
             print(name, r["verdict"], flush=True)
+    res = {n: res[n] for n in names if n in res}
     json.dump(res, open(os.path.join(V, "seeded", "RESULTS.json"), "w"), indent=1)
     L = ["# Seeded defects and the checks that catch them", "",
          "Produced by `python -m harness.seedall` (each seed applied in a scratch worktree of /repo, the property's quick check run against it).", "",
